@@ -542,15 +542,15 @@ def reorgAfter (steps : List FStep) : Option Blk := steps.foldl nextReorg none
 def fs0 (st0 : LState) : FState := ⟨st0, [], none, false, [], false⟩
 
 /-- the output-module payload `handleNew` computes for block `num` on the store state `st` -/
-def newPayload (cfg : FCfg) (st : LState) (num : Nat) : Bytes :=
-  match (usedMods cfg.world cfg.output).foldlM (runModule (usedMods cfg.world cfg.output) cfg.maxDepth num) ⟨st, [], [], []⟩ with
+def newPayload (cfg : FCfg) (st : LState) (num : Nat) (id : Bytes) : Bytes :=
+  match runBlockF cfg st num id with
   | .ok acc => (outputOf cfg.output acc.outs).getD []
   | .error _ => []
 
 /-- the canonical chain with, for each block, the payload computed when it was (last) applied -/
 def nextChain (cfg : FCfg) (fs : FState) (C : List Held) (s : FStep) : List Held :=
   match s.kind with
-  | .new | .newFinal => (s.num, s.id, newPayload cfg fs.st s.num) :: C
+  | .new | .newFinal => (s.num, s.id, newPayload cfg fs.st s.num s.id) :: C
   | .undo => C.tail
   | _ => C
 
@@ -579,13 +579,13 @@ theorem handleNew_spec (cfg : FCfg) (fs : FState) (s : FStep) :
     ((handleNew cfg fs s).ended = true ∧ (handleNew cfg fs s).msgs = fs.msgs) ∨
     ((handleNew cfg fs s).ended = fs.ended ∧ (handleNew cfg fs s).insideReorg = none ∧
       (handleNew cfg fs s).msgs =
-        if fs.gateOpen ∧ s.num ≥ cfg.gateStart then fs.msgs ++ [.data s.num s.id (newPayload cfg fs.st s.num)]
+        if fs.gateOpen ∧ s.num ≥ cfg.gateStart then fs.msgs ++ [.data s.num s.id (newPayload cfg fs.st s.num s.id)]
         else fs.msgs) := by
   unfold handleNew newPayload
   dsimp only
   split
   · exact Or.inl ⟨rfl, rfl⟩
-  · cases (usedMods cfg.world cfg.output).foldlM (runModule (usedMods cfg.world cfg.output) cfg.maxDepth s.num) ⟨fs.st, [], [], []⟩ with
+  · cases runBlockF cfg fs.st s.num s.id with
     | error e => exact Or.inl ⟨rfl, rfl⟩
     | ok acc => exact Or.inr ⟨rfl, rfl, rfl⟩
 
@@ -601,7 +601,7 @@ theorem stepF_new (cfg : FCfg) (fs : FState) (s : FStep) (he : fs.ended = false)
     ((stepF cfg fs s).ended = true ∧ (stepF cfg fs s).msgs = fs.msgs) ∨
     ((stepF cfg fs s).ended = false ∧ (stepF cfg fs s).insideReorg = none ∧
       (stepF cfg fs s).msgs =
-        if cfg.gateStart ≤ s.num then fs.msgs ++ [.data s.num s.id (newPayload cfg fs.st s.num)] else fs.msgs) := by
+        if cfg.gateStart ≤ s.num then fs.msgs ++ [.data s.num s.id (newPayload cfg fs.st s.num s.id)] else fs.msgs) := by
   have hs := handleNew_spec cfg { fs with gateOpen := gateStep cfg fs.gateOpen s } s
   have hg := gate_new cfg fs.gateOpen s hk
   simp only [he] at hs
@@ -823,7 +823,7 @@ theorem step_main_new (cfg : FCfg) {C : List Held} {r : Option Blk} {fs : FState
     (hok : okStep (C.map key) r s = true) (he : fs.ended = false) (hm : Main cfg C r fs) (hs : Safe fs.msgs) :
     Safe (stepF cfg fs s).msgs ∧
     ((stepF cfg fs s).ended = true ∨
-      Main cfg ((s.num, s.id, newPayload cfg fs.st s.num) :: C) none (stepF cfg fs s)) := by
+      Main cfg ((s.num, s.id, newPayload cfg fs.st s.num s.id) :: C) none (stepF cfg fs s)) := by
   rcases stepF_new cfg fs s he hk with ⟨e1, e2⟩ | ⟨e1, e2, e3⟩
   · rw [e2]; exact ⟨hs, Or.inl e1⟩
   · have hview : viewOf cfg.gateStart C r = viewOf cfg.gateStart C none := by
@@ -837,7 +837,7 @@ theorem step_main_new (cfg : FCfg) {C : List Held} {r : Option Blk} {fs : FState
         rcases hr with rfl | rfl
         · rfl
         · exact view_at_junction _ t C0 hm.desc
-    have hmain : Main cfg ((s.num, s.id, newPayload cfg fs.st s.num) :: C) none (stepF cfg fs s) := by
+    have hmain : Main cfg ((s.num, s.id, newPayload cfg fs.st s.num s.id) :: C) none (stepF cfg fs s) := by
       refine ⟨?_, (by intro j hj; cases hj), Or.inl e2, ?_⟩
       · unfold Desc
         rw [List.pairwise_cons]
@@ -1000,7 +1000,7 @@ theorem main0 (cfg : FCfg) (st0 : LState) : Main cfg [] none (fs0 st0) :=
 state at that moment -/
 theorem chainFrom_origin (cfg : FCfg) (steps : List FStep) : ∀ (fs : FState) (C : List Held) (h : Held),
     h ∈ chainFrom cfg fs C steps → h ∈ C ∨ ∃ pre s post, steps = pre ++ s :: post ∧
-      (s.kind = .new ∨ s.kind = .newFinal) ∧ h = (s.num, s.id, newPayload cfg (runSteps cfg fs pre).st s.num) := by
+      (s.kind = .new ∨ s.kind = .newFinal) ∧ h = (s.num, s.id, newPayload cfg (runSteps cfg fs pre).st s.num s.id) := by
   induction steps with
   | nil => intro fs C h hm; exact Or.inl hm
   | cons s rest ih =>
